@@ -328,7 +328,9 @@ class SimOps:
         self.po_s_locs = np.flatnonzero(self.c_locs[self.ppo_offset+np.arange(len(self.circuit.io_nodes))] >= 0)
         self.ppio_s_locs = np.arange(len(self.circuit.io_nodes), self.s_len)
 
-        self.pippi_s_locs = np.concatenate([self.pi_s_locs, self.ppio_s_locs])
+        # state elements without connected outputs have no (P)PI memory (c_locs is -1 there): they are not assigned
+        ppi_used_s_locs = self.ppio_s_locs[self.c_locs[self.ppi_offset+self.ppio_s_locs] >= 0]
+        self.pippi_s_locs = np.concatenate([self.pi_s_locs, ppi_used_s_locs])
         self.poppo_s_locs = np.concatenate([self.po_s_locs, self.ppio_s_locs])
 
         self.pi_c_locs = self.c_locs[self.ppi_offset+self.pi_s_locs]
@@ -336,5 +338,5 @@ class SimOps:
         self.ppi_c_locs = self.c_locs[self.ppi_offset+self.ppio_s_locs]
         self.ppo_c_locs = self.c_locs[self.ppo_offset+self.ppio_s_locs]
 
-        self.pippi_c_locs = np.concatenate([self.pi_c_locs, self.ppi_c_locs])
+        self.pippi_c_locs = np.concatenate([self.pi_c_locs, self.c_locs[self.ppi_offset+ppi_used_s_locs]])
         self.poppo_c_locs = np.concatenate([self.po_c_locs, self.ppo_c_locs])
